@@ -124,7 +124,7 @@ def cases(tier, seed):
                         yield {'g': 'F', 'fac': fac, 'N': N, 'M': M, 'dt': dt, 'k': 'm'}
 
 
-SCALARS = ['int', 'float', 'negfloat', 'npfloat', 't0d', 't1e', 'zero_int', 'zero_float', 'complex']
+SCALARS = ['int', 'float', 'inexact', 'negfloat', 'npfloat', 't0d', 't1e', 'zero_int', 'zero_float', 'complex']
 
 
 def _scalar(sk, dtype):
@@ -132,6 +132,8 @@ def _scalar(sk, dtype):
         return 2, 2.0
     if sk == 'float':
         return 0.5, 0.5
+    if sk == 'inexact':
+        return 0.1, 0.1          # not representable in float32: a scalar routed through single precision shows
     if sk == 'negfloat':
         return -4.0, -4.0
     if sk == 'npfloat':
@@ -258,7 +260,7 @@ def _scalar_case(c):
     if left_foreign and not isinstance(res, TT):
         return Outcome(key, nt, 'foreign-left returned ' + type(res).__name__)
     bound = ref.absbound(cx) * max(abs(sv), 1.0) + abs(sv)
-    exact = fam.startswith('int') and form != 'x/s' or (form == 'x/s' and fam.startswith('int') and sv in (2.0, 0.5, -4.0, -2.0))
+    exact = (fam.startswith('int') and form != 'x/s' or (form == 'x/s' and fam.startswith('int') and sv in (2.0, 0.5, -4.0, -2.0))) and sk != 'inexact'
     dtype = None if sk == 'complex' else ref.DT[dt]
     viol = check_tt(res, want, site, dtype, exact, bound, ttm=False, dtype_ref=ref.DT[dt])
     if isinstance(res, TT) and not viol:
